@@ -76,18 +76,33 @@ def splitBang (l : List String) : List (List String) :=
   l.foldr (fun t acc => if t == "!" then [] :: acc else match acc with | h :: r => (t :: h) :: r | [] => [[t]]) [[]]
 
 /-! ### trace provider -/
-def parsePKind : String → Option TP.PKind
+/-- `bn+bq`: the part after `+` names constructor options of the harness (blocking, small queue, short timeout);
+they do not change the model kind -/
+def baseKind (s : String) : String := (s.splitOn "+").headD s
+
+def parsePKind (s : String) : Option TP.PKind :=
+  match baseKind s with
   | "r" => some .recd | "sr" => some .simpleRec | "sn" => some .simpleNil | "br" => some .batchRec | "bn" => some .batchNil
   | _ => none
 
 def parseKinds {α : Type} (p : String → Option α) (s : String) : Option (List α) :=
   if s == "-" then some [] else (s.splitOn ",").mapM p
 
-def parseTPOp (t : String) : Option TP.Op :=
+def zipOpt {α β : Type} : List α → List β → List (α × Option β)
+  | [], _ => []
+  | a :: r, [] => (a, none) :: zipOpt r []
+  | a :: r, b :: s => (a, some b) :: zipOpt r s
+
+/-- ops of the trace script; the choice of a Shutdown with a done context is read off the observation of that step:
+`k` = exporter Shutdowns seen, `x` = spans exported when the call returned, `e` = the context error was reported -/
+def parseTPOp (t : String) (o : Option (Res × List (Nat × Cnt))) : Option TP.Op :=
+  let isErr := match o with | some (.err _ _ _, _) => true | _ => false
+  let ds := (o.map (·.2)).getD []
   match t.splitOn ":" with
   | ["reg", i] => i.toNat?.map .reg
   | ["unr", i] => i.toNat?.map .unreg
-  | ["sd", c] => (parseCtx c).map .shutdown
+  | ["sd", c] => (parseCtx c).map fun c =>
+      .shutdown c { e := fun _ => isErr, k := fun i => (deltaOf ds i).s, x := fun i => (deltaOf ds i).n }
   | ["ff", c] => (parseCtx c).map .flush
   | ["tr", k] => k.toNat?.map .tracer
   | ["st", k, j] => do pure (.start (← k.toNat?) (← j.toNat?))
@@ -105,13 +120,13 @@ def tpBranch (s : TP.St) (op : TP.Op) : String :=
   match op with
   | .reg _ => if s.isShutdown then "reg-after" else "reg"
   | .unreg i => if s.isShutdown then "unr-after" else if (TP.removeLast i s.procs).isSome then "unr-hit" else "unr-miss"
-  | .shutdown c => if s.isShutdown then "sd-again" else if s.procs.isEmpty then "sd-empty" else if c.done then "sd-f26" else "sd-live"
-  | .flush c => if s.procs.isEmpty then "ff-empty" else if c.done then "ff-done" else if s.isShutdown then "ff-f26" else "ff-live"
+  | .shutdown c _ => if s.isShutdown then "sd-again" else if s.procs.isEmpty then "sd-empty" else if c.done then "sd-done" else "sd-live"
+  | .flush c => if s.procs.isEmpty then "ff-empty" else if c.done then "ff-done" else "ff-live"
   | .tracer _ => if s.isShutdown then "tr-noop" else "tr-sdk"
   | .start k _ => match s.tracers k with | some true => "st-sdk" | some false => "st-noop" | none => "st-none"
   | .end_ j => match s.spans j with | .live true => (if s.procs.isEmpty then "en-nobody" else "en-deliver") | .live false => "en-noop" | _ => "en-none"
   | .span k => match s.tracers k with
-    | some true => if s.procs.isEmpty then "sp-nobody" else if s.isShutdown then "sp-f26" else "sp-deliver"
+    | some true => if s.procs.isEmpty then "sp-nobody" else "sp-deliver"
     | some false => "sp-noop" | none => "sp-none"
   | .pshut _ => "psd"
 
@@ -125,30 +140,75 @@ def renderTP (n : Nat) (prev : Nat → Cnt) : List TP.Obs → List String
   | [] => []
   | o :: r => (renderRes o.res ++ renderDelta n prev o.snap) :: renderTP n o.snap r
 
+/-- remove the deltas attributed to a preceding `land` from an observation -/
+def subLagT (ln ls : Nat → Nat) (o : Option (Res × List (Nat × Cnt))) : Option (Res × List (Nat × Cnt)) :=
+  o.map fun (r, ds) => (r, ds.map fun (i, c) => (i, { c with n := c.n - ln i, s := c.s - ls i }))
+
+/-- One observed step = an optional asynchronous arrival (`land`, Lag.lean) followed by the API op.  The model
+state is carried along: exporter Shutdowns / exports observed for a processor whose raced shutdown (provider
+Shutdown with a done context) still owes them are attributed to a `land` placed before the call. -/
+def tpSteps (n : Nat) : Lag.T.TSt → List (String × Option (Res × List (Nat × Cnt))) →
+    Option (List (Option ((Nat → Nat) × (Nat → Nat)) × TP.Op))
+  | _, [] => some []
+  | g, (t, o) :: rest => do
+    let ds := (o.map (·.2)).getD []
+    let lagS : Nat → Nat := fun i => if g.pendS i != 0 then (deltaOf ds i).s else 0
+    let lagN : Nat → Nat := fun i =>
+      if (g.st.pool i).kind == .batchRec && (g.st.pool i).stopped && (g.st.pool i).queued != 0
+      then (deltaOf ds i).n else 0
+    let hasLag := (List.range n).any fun i => lagS i != 0 || lagN i != 0
+    let op ← parseTPOp t (if hasLag then subLagT lagN lagS o else o)
+    let g1 := if hasLag then (Lag.T.tstep g (.land lagN lagS)).1 else g
+    let g2 := (Lag.T.tstep g1 (.api op)).1
+    pure ((if hasLag then some (lagN, lagS) else none, op) :: (← tpSteps n g2 rest))
+
+def tpLagOps : List (Option ((Nat → Nat) × (Nat → Nat)) × TP.Op) → List Lag.T.TOp
+  | [] => []
+  | (some (ln, ls), o) :: r => .land ln ls :: .api o :: tpLagOps r
+  | (none, o) :: r => .api o :: tpLagOps r
+
+def tpSynth (prev : Nat → Cnt) :
+    List (Option ((Nat → Nat) × (Nat → Nat)) × TP.Op) → List (Res × List (Nat × Cnt)) → List TP.Obs
+  | (lag, _) :: ss, (r, ds) :: rest =>
+    let cur := applyDeltas prev ds
+    match lag with
+    | some (ln, ls) =>
+      { res := .none, snap := fun i => { prev i with n := (prev i).n + ln i, s := (prev i).s + ls i } } ::
+        { res := r, snap := cur } :: tpSynth cur ss rest
+    | none => { res := r, snap := cur } :: tpSynth cur ss rest
+  | [], raws => tpObs prev raws
+  | _, [] => []
+
+def dropLandsT {α : Type} : List Lag.T.TOp → List α → List α
+  | .land _ _ :: ops, _ :: xs => dropLandsT ops xs
+  | .api _ :: ops, x :: xs => x :: dropLandsT ops xs
+  | _, _ => []
+
 def tpLine (kindsS : String) (opToks obsToks : List String) : Option Verdict := do
   let kinds ← parseKinds parsePKind kindsS
-  let ops ← opToks.mapM parseTPOp
   let raw ← obsToks.mapM parseObs
   let n := kinds.length
+  let steps ← tpSteps n { st := TP.init kinds } (zipOpt opToks raw)
+  let tops := tpLagOps steps
+  let ops := steps.map (·.2)
   let obs := tpObs (fun _ => {}) raw
-  let model := TP.run kinds ops
+  let model := dropLandsT tops (Lag.T.trun kinds tops)
   let agree := model.length == obs.length &&
     (model.zip obs).all fun (m, o) => m.res == o.res && snapEq n m.snap o.snap
-  let fails := Spec.TP.check kinds ops obs
-  let spec := if !fails.any then "ok"
-    else if Spec.TP.f26From {} ops then "KNOWN:F26" else "FAIL:" ++ failTags fails
-  let br := dedup (tpBranches (TP.init kinds) ops)
-  pure { agree := agree, spec := spec, nontrivial := raw.any (fun (_, ds) => !ds.isEmpty),
+  let fails := Lag.T.tcheck kinds tops (tpSynth (fun _ => {}) steps raw)
+  let br := dedup (tpBranches (TP.init kinds) ops ++ (if steps.any (·.1.isSome) then ["late-arrival"] else []))
+  pure { agree := agree, spec := if fails.any then "FAIL:" ++ failTags fails else "ok",
+         nontrivial := raw.any (fun (_, ds) => !ds.isEmpty),
          branches := if br.isEmpty then "-" else ",".intercalate br,
          model := " ".intercalate (renderTP n (fun _ => {}) model) }
 
 
 /-! ### trace provider, forced schedules: an End parked inside a processor while other ops run (`gtp`) -/
-def parseGOp (t : String) : Option Gate.GOp :=
+def parseGOp (t : String) (o : Option (Res × List (Nat × Cnt))) : Option Gate.GOp :=
   if t == "rel" then some .rel
   else match t.splitOn ":" with
     | ["endg", j, k] => do pure (.endg (← j.toNat?) (← k.toNat?))
-    | _ => (parseTPOp t).map .op
+    | _ => (parseTPOp t o).map .op
 
 def parseGObs (s : String) : Option (Res × Bool × List (Nat × Cnt)) :=
   if s.startsWith "parked" then (parseObs ("-" ++ dropS s 6)).map fun (r, ds) => (r, true, ds)
@@ -174,23 +234,23 @@ def gBranches (g : Gate.GSt) : List Gate.GOp → List String
 
 def gtpLine (kindsS : String) (opToks obsToks : List String) : Option Verdict := do
   let kinds ← parseKinds parsePKind kindsS
-  let ops ← opToks.mapM parseGOp
   let raw ← obsToks.mapM parseGObs
+  let ops ← (zipOpt opToks raw).mapM fun (t, o) => parseGOp t (o.map fun (r, _, ds) => (r, ds))
   let n := kinds.length
   let obs := gObs (fun _ => {}) raw
   let model := Gate.grun kinds ops
   let agree := model.length == obs.length &&
     (model.zip obs).all fun (m, o) => m.res == o.res && m.parked == o.parked && snapEq n m.snap o.snap
   let fails := Gate.gcheck kinds ops obs
-  let spec := if !fails.any then "ok"
-    else if Spec.TP.f26From {} (Gate.shadow ops) then "KNOWN:F26" else "FAIL:" ++ failTags fails
+  let spec := if !fails.any then "ok" else "FAIL:" ++ failTags fails
   let br := dedup (gBranches { st := TP.init kinds } ops)
   pure { agree := agree, spec := spec, nontrivial := raw.any (fun (_, p, _) => p),
          branches := if br.isEmpty then "-" else ",".intercalate br,
          model := " ".intercalate (renderG n (fun _ => {}) model) }
 
 /-! ### logger provider -/
-def parseLKind : String → Option LP.LKind
+def parseLKind (s : String) : Option LP.LKind :=
+  match baseKind s with
   | "r" => some .recd | "sr" => some .simpleRec | "sn" => some .simpleNil | "br" => some .batchRec | "bn" => some .batchNil
   | _ => none
 
@@ -205,11 +265,6 @@ def parseLPOp (t : String) (o : Option (Res × List (Nat × Cnt))) : Option LP.O
       .flush c { e := fun _ => isErr, k := fun i => (deltaOf ds i).f, x := fun i => (deltaOf ds i).n }
   | ["sd", c] => (parseCtx c).map fun c => .shutdown c { e := fun _ => isErr, k := fun i => (deltaOf ds i).n }
   | _ => none
-
-def zipOpt {α β : Type} : List α → List β → List (α × Option β)
-  | [], _ => []
-  | a :: r, [] => (a, none) :: zipOpt r []
-  | a :: r, b :: s => (a, some b) :: zipOpt r s
 
 def lpObs (prev : Nat → Cnt) : List (Res × List (Nat × Cnt)) → List LP.Obs
   | [] => []
